@@ -812,8 +812,10 @@ Definition micase_check (c : micase) : bool :=
              && forallb (fun a => Nat.eqb (length a) NB && forallb (fun b => shape2 b P W) a) (mi_acc o)
              && all2 S W (fun s w =>
                   let erows := map (fun r => (scale_q e (nth s (fst r) 0), nth w (snd r) 0)) rows in
+                  (* Mia.hist_spec edges parts erows b k, the tags of the rows computed once *)
+                  let tags := map (Mia.row_tag edges (mi_parts c)) erows in
                   all2 NB P (fun b k =>
-                    fval_eq_z (nth w (nth k (nth b (nth s (mi_acc o) []) []) []) NaN) (Mia.hist_spec edges (mi_parts c) erows b k)))
+                    fval_eq_z (nth w (nth k (nth b (nth s (mi_acc o) []) []) []) NaN) (Mia.count_tags tags b k)))
          | _ => false
          end
   end.
